@@ -37,6 +37,12 @@ type FaultConn struct {
 	closeCalls  int
 	failed      bool
 	OnClose     func()
+	// HookReadAt / AfterRead: when the read with this 1-based index has returned data, AfterRead runs to
+	// completion on another goroutine before the data is handed to the caller: a scheduling point between
+	// "the pump took bytes from the socket" and whatever the pump does with them next
+	HookReadAt int
+	AfterRead  func()
+	hooked     bool
 }
 
 func (f *FaultConn) Arm() {
@@ -58,8 +64,23 @@ func (f *FaultConn) Read(p []byte) (int, error) {
 			return 0, errInjected
 		}
 	}
+	idx := f.reads
 	f.mu.Unlock()
-	return f.Conn.Read(p)
+	n, err := f.Conn.Read(p)
+	f.mu.Lock()
+	fire := f.armed && f.AfterRead != nil && !f.hooked && f.HookReadAt != 0 && idx >= f.HookReadAt && n > 0 && err == nil
+	if fire {
+		f.hooked = true
+		f.failed = true
+	}
+	hook := f.AfterRead
+	f.mu.Unlock()
+	if fire {
+		done := make(chan struct{})
+		go func() { defer close(done); hook() }()
+		<-done
+	}
+	return n, err
 }
 
 func (f *FaultConn) Write(p []byte) (int, error) {
